@@ -23,6 +23,9 @@ def build(cfg):
     s = Module()
     s.d[cfg["d1"]] += r1.eq(d)
     s.d[cfg["d2"]] += r2.eq(d)
+    r4 = Signal(2, name="r4", init=3)          # one signal, bits split between the two domains
+    s.d[cfg["d1"]] += r4[0].eq(d)
+    s.d[cfg["d2"]] += r4[1].eq(d)
     wrapped = s
     for w in cfg["ws"]:
         if w["k"] == "reset":
@@ -39,7 +42,7 @@ def build(cfg):
     ka, kb = Signal(name="ka"), Signal(name="kb")
     top.d.A += ka.eq(~ka)
     top.d.B += kb.eq(~kb)
-    sigs = {"d": d, "c1": c["c1"], "c2": c["c2"], "r1": r1, "r2": r2, "r3": r3,
+    sigs = {"d": d, "c1": c["c1"], "c2": c["c2"], "r1": r1, "r2": r2, "r3": r3, "r4": r4,
             "clkA": cds["A"].clk, "clkB": cds["B"].clk}
     if cfg["A"]["rst"] != "none":
         sigs["rstA"] = cds["A"].rst
@@ -49,7 +52,7 @@ def build(cfg):
 
 
 def run(cfg, events):
-    """events: list of ("clk", ca, cb) | ("set", name, value). Returns list of (r1, r2, r3) after each event."""
+    """events: list of ("clk", ca, cb) | ("set", name, value). Returns list of (r1, r2, r3, r4) after each event."""
     top, sigs = build(cfg)
     sim = Simulator(top)
     out = []
@@ -60,7 +63,7 @@ def run(cfg, events):
                 ctx.set(Cat(sigs["clkA"], sigs["clkB"]), ev[1] | (ev[2] << 1))
             else:
                 ctx.set(sigs[ev[1]], ev[2])
-            out.append((ctx.get(sigs["r1"]), ctx.get(sigs["r2"]), ctx.get(sigs["r3"])))
+            out.append((ctx.get(sigs["r1"]), ctx.get(sigs["r2"]), ctx.get(sigs["r3"]), ctx.get(sigs["r4"])))
 
     sim.add_testbench(tb)
     sim.run()
